@@ -20,7 +20,7 @@ BASE = dict(
     Subs=S("1"), RGs=S("1"), Consumers=S("a"), AcctChoices=S((5, 1), (7, 2), (0, 3)),
     Reqs=S(2, 4), Vols=S(0, 1, 3), Modes=S("on"), TrigSets=S("none", "final", "partial"),
     TopUps=S(6), MaxSteps=5, MaxSess=1, Limit=100, Pads=S(0), CreateConts=S(0),
-    TwoEntries=False, BadRefs=False, WellBehaved=False, Lrsn0=0, Recharges=True, Traffic=S(),
+    TwoEntries=False, BadRefs=False, WellBehaved=False, AskAfterFinal=True, KnownDebitNoFui=True, Lrsn0=0, Recharges=True, Traffic=S(), SinkAnswers=S(204),
 )
 
 # clause -> invariant of ChfSeqMC that states it on the model
@@ -83,59 +83,77 @@ def tz_scenarios():
 
 
 def cfg(pid, tier):
-    c = dict(BASE)
-    n_beh, emit = 160, 40
+    """Bounded configurations ("slices") of ChfSeqMC per property.  A slice with graph=True has its whole labelled
+    state graph handed to the runner, which replays either every transition (n_beh=None) or a signature-pair cover
+    of n_beh paths (vflib/graph.py); small, focused slices replace one large product that could only be sampled."""
+    q = tier == "quick"
     extra = []
+
+    def sl(name, n_beh, **over):
+        c = dict(BASE)
+        c.update(over)
+        return dict(name=name, consts=c, n_beh=n_beh, graph=True)
+
     if pid == "C01":
-        if tier == "quick":
-            c.update(MaxSteps=5)
-            n_beh, emit = 200, 100
-        else:
-            c.update(Subs=S("1", "2"), RGs=S("1", "2"), AcctChoices=S((5, 1), (9, 2)), MaxSteps=5, MaxSess=2,
-                     Vols=S(0, 3), Reqs=S(4), TwoEntries=False)
-            n_beh, emit = 6000, 40
+        slices = [
+            # one subscriber, one rating group, every kind of step incl. top-up and recharge, deep
+            sl("deep", 1500 if q else 12000, MaxSteps=5 if q else 6, Vols=S(0, 1, 3), Reqs=S(2, 4)),
+            # two rating groups in one request / in separate requests
+            sl("two-rg", 600 if q else 6000, RGs=S("1", "2"), TwoEntries=True, MaxSteps=3 if q else 4, Vols=S(0, 3), Reqs=S(4),
+               AcctChoices=S((5, 1), (9, 2)), TopUps=S(), TrigSets=S("none", "final")),
+            # two sessions of one subscriber sharing a rating group; two subscribers
+            sl("two-sess", 500 if q else 6000, Subs=S("1", "2"), MaxSess=2, MaxSteps=4 if q else 5, Vols=S(0, 3), Reqs=S(4),
+               AcctChoices=S((5, 1), (9, 2)), TopUps=S(), TrigSets=S("none", "final")),
+        ]
     elif pid == "C06":
-        c.update(WellBehaved=True, RGs=S("1", "2"), TwoEntries=True, AcctChoices=S((5, 1), (7, 2), (0, 3), (40, 1)),
-                 Reqs=S(2, 4), Vols=S(0, 2, 4), TopUps=S(6))
-        if tier == "quick":
-            c.update(MaxSteps=4, TopUps=S())
-            n_beh, emit = 260, 300
-        else:
-            c.update(MaxSteps=5)
-            n_beh, emit = 6000, 2000
+        wb = dict(WellBehaved=True, AcctChoices=S((5, 1), (7, 2), (0, 3), (40, 1)), Reqs=S(2, 4), Vols=S(0, 2, 4))
+        slices = [
+            sl("deep", 1500 if q else 15000, MaxSteps=5 if q else 6, TopUps=S() if q else S(6), **wb),
+            sl("two-rg", 500 if q else 6000, RGs=S("1", "2"), TwoEntries=True, MaxSteps=3 if q else 4, TopUps=S(),
+               **dict(wb, AcctChoices=S((5, 1), (7, 2), (0, 3)), Vols=S(0, 4))),
+            sl("topup", 300 if q else 3000, MaxSteps=4 if q else 5, TopUps=S(6), TrigSets=S("none", "final"),
+               **dict(wb, AcctChoices=S((5, 1), (0, 3)))),
+        ]
     elif pid == "C12":
-        c.update(Subs=S("1", "2"), BadRefs=True, MaxSess=2, Reqs=S(4), Vols=S(0, 3), TrigSets=S("none", "final", "partial"),
-                 TopUps=S(), AcctChoices=S((9, 1)), Pads=S(0, 3), Limit=6, Modes=S("on", "off"), CreateConts=S(0, 2))
-        if tier == "quick":
-            c.update(MaxSteps=4)
-            n_beh, emit = 300, 300
-        else:
-            c.update(MaxSteps=5)
-            n_beh, emit = 6000, 3000
+        base = dict(BadRefs=True, Reqs=S(4), Vols=S(3), TopUps=S(), AcctChoices=S((9, 1)), Limit=6,
+                    SinkAnswers=S(204, 200, 400, 500))
+        small = dict(TrigSets=S("none", "partial"), Pads=S(0), Modes=S("on"), CreateConts=S(0))
+        rich = dict(TrigSets=S("none", "partial", "final"), Pads=S(0, 3), Modes=S("on", "off"), CreateConts=S(0, 2))
+        slices = [
+            sl("two-subs", 1200 if q else 10000, Subs=S("1", "2"), MaxSess=2, MaxSteps=4 if q else 5, **dict(base, **small)),
+            sl("one-sub", 900 if q else 10000, MaxSess=2, MaxSteps=4 if q else 5, **dict(base, **rich)),
+        ]
     elif pid in ("C02", "C03"):
-        c.update(Subs=S("1", "2"), MaxSess=3, CreateConts=S(0, 2), Modes=S("on", "off"), Limit=6, Pads=S(0, 3),
-                 Reqs=S(4), Vols=S(0, 2), TrigSets=S("none", "partial", "final"), TopUps=S(), Recharges=False,
-                 AcctChoices=S((40, 1)), TwoEntries=(tier == "thorough"))
-        if tier == "quick":
-            c.update(MaxSteps=4)
-            n_beh, emit = 220, 100
+        base = dict(Reqs=S(4), Vols=S(2), TopUps=S(), Recharges=False, AcctChoices=S((40, 1)))
+        if q:
+            slices = [
+                sl("sessions", 900, Subs=S("1", "2"), MaxSess=3, MaxSteps=4, CreateConts=S(0, 2), Modes=S("on", "off"),
+                   TrigSets=S("none", "partial"), **base),
+                sl("split", 900, MaxSess=2, MaxSteps=5, CreateConts=S(0), Modes=S("on", "off"), Limit=4, Pads=S(0, 2),
+                   TrigSets=S("none", "partial", "final"), **base),
+                sl("two-rg", 300, RGs=S("1", "2"), TwoEntries=True, MaxSess=2, MaxSteps=3, Modes=S("on", "off"), Limit=6,
+                   TrigSets=S("none", "partial", "final"), **base),
+            ]
         else:
-            c.update(MaxSteps=5)
-            n_beh, emit = 5000, 400
+            slices = [
+                sl("sessions", 10000, Subs=S("1", "2"), MaxSess=3, MaxSteps=5, CreateConts=S(0, 2), Modes=S("on", "off"),
+                   TrigSets=S("none", "partial"), **base),
+                sl("split", 10000, MaxSess=2, MaxSteps=5, CreateConts=S(0, 2), Modes=S("on", "off"), Limit=5, Pads=S(0, 2),
+                   TrigSets=S("none", "partial", "final"), **base),
+                sl("two-rg", 4000, RGs=S("1", "2"), TwoEntries=True, MaxSess=2, MaxSteps=4, Modes=S("on", "off"), Limit=6,
+                   TrigSets=S("none", "partial", "final"), **base),
+            ]
         if pid == "C02":
             extra = tz_scenarios()
         if pid == "C03":
             extra = size_scenarios(tier)
     elif pid == "C10":
-        c.update(Subs=S("1", "11"), Consumers=S("", "1"), Traffic=S(9), Lrsn0=1, MaxSess=3, Modes=S("off"),
-                 Reqs=S(), Vols=S(1), TrigSets=S("none"), TopUps=S(), Recharges=False, AcctChoices=S((9, 1)))
-        if tier == "quick":
-            c.update(MaxSteps=4)
-            n_beh, emit = 220, 10
-        else:
-            c.update(MaxSteps=6, MaxSess=4)
-            n_beh, emit = 5000, 100
-    return c, n_beh, emit, extra
+        slices = [
+            sl("refs", 1000 if q else 8000, Subs=S("1", "11"), Consumers=S("", "1"), Traffic=S(9), Lrsn0=1, MaxSess=3 if q else 4,
+               Modes=S("off"), Reqs=S(), Vols=S(1), TrigSets=S("none"), TopUps=S(), Recharges=False, AcctChoices=S((9, 1)),
+               MaxSteps=4 if q else 6),
+        ]
+    return slices, extra
 
 
 def to_behaviour(hist, bid, padmap):
@@ -143,7 +161,7 @@ def to_behaviour(hist, bid, padmap):
     b = dict(id=bid, lrsn0=setup["lrsn0"], wb=setup["wb"], ues=sorted(setup["ues"]),
              accts=sorted(setup["accts"], key=lambda a: (a["u"], a["rg"])), steps=[])
     for st in hist[1:]:
-        st = dict(st)
+        st = {k: x for k, x in st.items() if k != "sig"}
         if "pad" in st:
             st["pad"] = padmap(st["pad"])
         if st["a"] == "traffic":
@@ -162,15 +180,19 @@ def _phase(pid, tier):
 
 
 def check(pid, tier, replay=None):
-    consts, n_beh, emit, extra = cfg(pid, tier)
-    limit = consts["Limit"]
-    consts = dict(consts, EmitOneIn=emit)
-    consts.update(DEV)
+    slices, extra = cfg(pid, tier)
+    limit = max(x["consts"]["Limit"] for x in slices)
+    for x in slices:
+        x["consts"] = dict(x["consts"], EmitOneIn=1)
+        x["consts"].update(DEV)
+        lim = x["consts"]["Limit"]
+        x["padmap"] = lambda p, lim=lim: realpad(lim, p)
     return pipe.standard_check(
-        pid, tier, family="seq", base_module="ChfSeqMC", consts=consts, invariants=INV[pid], n_beh=n_beh,
-        to_behaviour=lambda h, bid: to_behaviour(h, bid, lambda p: realpad(limit, p)),
+        pid, tier, family="seq", base_module="ChfSeqMC", consts=slices[0]["consts"], invariants=INV[pid], n_beh=None,
+        to_behaviour=None, slices=slices, slice_behaviour=lambda x, h, bid: to_behaviour(h, bid, x["padmap"]),
         harness_mode="seq", trace_module="ChfSeqTrace", trace_consts={k: core.tla_bool(v) for k, v in DEV.items()},
         clauses=CLAUSES[pid], extra=extra, replay=replay, extra_phase=_phase(pid, tier),
+        judge_boundary='"action":"reset"',
         assumptions=[
             "fake in-memory MongoDB stands in for mongod (find/update semantics trusted)",
             "harness projection code and TLV walker trusted; TLC and CommunityModules trusted",
